@@ -619,17 +619,94 @@ def gen_argalias(rng):
     return d
 
 
+def gen_history(rng):
+    """several objects that share a key-like part (trap coordinates, name,
+    parameters) and differ in another field, decoded one after the other in
+    the same process in a random order with repetitions: decoding must be a
+    function of the JSON alone"""
+    family = rng.choice(["layouts", "layouts", "registers", "devices", "mixed", "mixed", "detmaps", "noise", "devices_same_name"])
+    dim = 2 if family in ("detmaps",) else rng.choice([2, 2, 3])
+    n = rng.randint(2, 7)
+    coords = gen_coords(rng, n, dim, spacing=5.0)
+    slugs = [None]
+    while len(slugs) < 3:
+        sl = ident(rng, rng.choice(["cal", "lay", "S"]))
+        if sl not in slugs:
+            slugs.append(sl)
+    rng.shuffle(slugs)
+
+    def lay(i, reorder=False):
+        c = [list(x) for x in coords]
+        if reorder:
+            rng.shuffle(c)
+        return dict(coordinates=c, slug=slugs[i % len(slugs)])
+
+    def reg(i):
+        k = rng.randint(1, n)
+        return dict(dim=dim, layout=lay(i), traps=rng.sample(range(n), k), ids=[f"q{j}" for j in range(k)])
+
+    def dev(i, name=None, layouts=None):
+        kw = dict(
+            name=name or ident(rng, "HDev"), dimensions=dim, rydberg_level=60, min_atom_distance=4,
+            max_atom_num=rng.choice([20, 50]), max_radial_distance=100,
+            channel_objects=[gen_channel(rng, cls=rng.choice(["Rydberg", "Raman"]), physical=True)],
+            pre_calibrated_layouts=layouts if layouts is not None else [lay(i)] + ([lay(i + 1)] if rng.random() < 0.3 else []),
+        )
+        if rng.random() < 0.5:
+            kw["max_runs"] = rng.choice([100, 500, 2000])
+        if rng.random() < 0.5:
+            kw["max_sequence_duration"] = rng.choice([4000, 6000])
+        return dict(virtual=False, kwargs=kw)
+
+    items = []
+    if family == "layouts":
+        for i in range(rng.randint(2, 3)):
+            items.append(dict(type="layout", spec=lay(i, reorder=rng.random() < 0.3)))
+    elif family == "registers":
+        for i in range(rng.randint(2, 3)):
+            items.append(dict(type="register", spec=reg(i)))
+    elif family == "devices":
+        for i in range(rng.randint(2, 3)):
+            items.append(dict(type="device", spec=dev(i)))
+    elif family == "mixed":
+        kinds = ["device", "register", "layout"]
+        rng.shuffle(kinds)
+        for i, k in enumerate(kinds[: rng.randint(2, 3)]):
+            items.append(dict(type=k, spec=dict(device=dev, register=reg, layout=lay)[k](i)))
+    elif family == "detmaps":
+        for i in range(rng.randint(2, 3)):
+            items.append(dict(type="detmap", spec=dict(coords=[list(x) for x in coords], slug=slugs[i],
+                                                        weights=[rng.choice([0.0, 1.0, 0.5, 0.25]) for _ in range(n)])))
+    elif family == "noise":
+        base = dict(relaxation_rate=0.1, dephasing_rate=0.05)
+        for i in range(rng.randint(2, 3)):
+            a = dict(base)
+            a[rng.choice(["relaxation_rate", "dephasing_rate", "hyperfine_dephasing_rate", "depolarizing_rate"])] = rng.choice([0.2, 0.3, 1.0])
+            if rng.random() < 0.4:
+                a.update(p_false_pos=rng.choice([0.01, 0.05]))
+            items.append(dict(type="noise", args=a))
+    else:
+        name = ident(rng, "Same")
+        for i in range(rng.randint(2, 3)):
+            items.append(dict(type="device", spec=dev(i, name=name, layouts=[] if rng.random() < 0.5 else None)))
+    order = list(range(len(items)))
+    rng.shuffle(order)
+    order += [rng.randrange(len(items)) for _ in range(rng.randint(1, 4))]
+    return dict(family=family, items=items, order=order)
+
+
 KINDS = [
-    ("device", 0.27),
+    ("device", 0.24),
+    ("history", 0.07),
     ("argalias", 0.08),
-    ("noise", 0.20),
+    ("noise", 0.18),
     ("simconfig", 0.06),
     ("config", 0.11),
     ("results", 0.06),
     ("register", 0.08),
     ("layout", 0.03),
     ("detmap", 0.03),
-    ("alias", 0.08),
+    ("alias", 0.06),
 ]
 
 
@@ -646,6 +723,8 @@ def gen_case(rng: random.Random, tier: str):
         return dict(kind=kind, spec=gen_device(rng), foreign_seed=rng.randrange(1 << 30))
     if kind == "argalias":
         return dict(kind=kind, spec=gen_argalias(rng))
+    if kind == "history":
+        return dict(kind=kind, spec=gen_history(rng))
     if kind == "noise":
         return dict(kind=kind, args=gen_noise_args(rng))
     if kind == "simconfig":
